@@ -317,7 +317,10 @@ Definition step (c : cfg) (s : st) (o : op) : st * list obs :=
          Released cid :: wake_obs c (counter s))
       else (s, [])
   | Advance ms => (set_now s (now s + Z.max 0 ms)%Z, [])
-  | CloseConn => (set_open s false, [])
+  | CloseConn =>
+      (* the accept thread exits (its handles are dropped) only after its last dispatch is complete *)
+      let s1 := if gap s then set_gap (set_counter s (counter s + 1)%Z) false else s in
+      (set_open s1 false, [])
   end.
 
 (* one observation list per executed op; the run ends with the op in which the worker future
